@@ -8,13 +8,14 @@ import typing as T
 from ..core import Module, Repo, Undecided, norm, short, attr_chain, walk_no_nested
 from ..report import RuleCtx
 from ..cfg import CFG
-from .c01_sym import SymPath, sym_paths, is_call, show, subterms
+from .c01_sym import SymPath, sym_paths, is_call, show, subterms, private_helpers
 from . import c01_parser
 
 IB = 'mesonbuild/interpreterbase/interpreterbase.py'
 HELPERS = 'mesonbuild/interpreterbase/helpers.py'
 INTERP = 'mesonbuild/interpreter/interpreter.py'
 MPARSER = c01_parser.MPARSER
+OPAQUE_METHODS = {'_holderify', '_unholder_args'}       # part of the rules' vocabulary: never spliced
 
 
 def rename(t: T.Any, param: str, to: str = 'NODE') -> T.Any:
@@ -40,7 +41,8 @@ class EvalFn:
         if not ps:
             raise Undecided(f'{self.qn}: no node parameter')
         self.param = ps[0]
-        self.paths = sym_paths(self.fn, unroll=unroll, handlers=handlers)
+        # statements extracted into private helpers of the class are spliced back (two levels) before the paths are enumerated
+        self.paths = sym_paths(self.fn, unroll=unroll, handlers=handlers, helpers=private_helpers(self.mod.cls('InterpreterBase'), stop=OPAQUE_METHODS))
 
     def r(self, t: T.Any) -> T.Any:
         return rename(t, self.param)
@@ -151,6 +153,11 @@ def bool_evaluator(ctx: RuleCtx, name: str, left: str, right: str, check: bool) 
     for v in views(ef):
         if right in v.evals:
             pol.add(v.truth(bl))
+    if not pol:
+        for v in views(ef):
+            for a in v.sp.actions:
+                if a.kind == 'call' and any(x == ('name', f'{ef.param}.{right}') for x in subterms(a.term[4])) and a.term[2] != 'self.evaluate_statement':
+                    raise Undecided(f'{qn}: the right operand is handed to {a.term[2]}, which this rule cannot see into')
     if len(pol) != 1 or None in pol:
         if check:
             ctx.violation(mod, qn, f'{name}: right operand evaluation', f'the right operand is evaluated on paths where the truth of the left operand is {sorted(map(str, pol))}: '
@@ -374,7 +381,7 @@ def dispatch_arms(ctx: RuleCtx) -> T.Dict[str, T.Dict[str, T.Any]]:
     param = fn.args.args[1].arg
     arms: T.Dict[str, T.Dict[str, T.Any]] = {}
     order: T.List[str] = []
-    for sp in sym_paths(fn, unroll=1):
+    for sp in sym_paths(fn, unroll=1, helpers=private_helpers(mod.cls('InterpreterBase'), stop=OPAQUE_METHODS)):
         tests: T.List[T.Tuple[str, bool]] = []
         for t, v in sp.conds():
             if is_call(t, 'isinstance') and len(t[4]) == 2 and t[4][0] == ('name', param):
@@ -438,7 +445,7 @@ def constructible_nodes(ctx: RuleCtx) -> T.Dict[str, str]:
         if not mod.has_func(f'Parser.{meth}'):
             raise Undecided(f'Parser.{meth} not found while closing over returned node classes')
         fn = mod.func(f'Parser.{meth}')
-        for sp in sym_paths(fn, unroll=2):
+        for sp in sym_paths(fn, unroll=2, helpers=private_helpers(mod.cls('Parser'))):
             if sp.outcome != 'return':
                 continue
             r = sp.result
